@@ -111,12 +111,54 @@ func extractSlice(repo string, facts Facts) (string, string) {
 			return true
 		})
 	}
-	sf := map[string]any{"tailAssignedOnlyFreshSlices": onlyFresh, "tailNeverDestination": neverDst, "tailNeverIndexAssigned": neverIdx, "notes": notes}
+	// reconciler.StatusSet.Set / Pending (types.go): the receiver is a VALUE whose `statuses` slice is
+	// shared with the caller's copy: it is cloned before the first write through it
+	ft := parse(filepath.Join(repo, "reconciler", "types.go"))
+	ssCow := true
+	for _, name := range []string{"Set", "Pending"} {
+		fd := findFunc(ft, name, "StatusSet")
+		if fd == nil {
+			fail("reconciler/types.go: StatusSet.%s not found", name)
+		}
+		clonePos, firstWrite := -1, -1
+		ast.Inspect(fd.Body, func(n ast.Node) bool {
+			switch x := n.(type) {
+			case *ast.AssignStmt:
+				for i, l := range x.Lhs {
+					ls := exprString(l)
+					if ls == "s.statuses" && i < len(x.Rhs) && exprString(x.Rhs[i]) == "slices.Clone(s.statuses)" && clonePos < 0 && x.Pos().IsValid() {
+						// only an unconditional clone at the top level of the function counts
+						for _, st := range fd.Body.List {
+							if st == ast.Stmt(x) {
+								clonePos = int(x.Pos())
+							}
+						}
+					} else if strings.HasPrefix(ls, "s.statuses[") || (ls == "s.statuses" && i < len(x.Rhs) && strings.HasPrefix(exprString(x.Rhs[i]), "append(s.statuses")) {
+						if firstWrite < 0 {
+							firstWrite = int(x.Pos())
+						}
+					}
+				}
+			case *ast.CallExpr:
+				fn := exprString(x.Fun)
+				if dstFuncs[fn] && fn != "append" && len(x.Args) > 0 && exprString(x.Args[0]) == "s.statuses" && firstWrite < 0 {
+					firstWrite = int(x.Pos())
+				}
+			}
+			return true
+		})
+		if firstWrite >= 0 && (clonePos < 0 || clonePos > firstWrite) {
+			ssCow = false
+			note("StatusSet.%s writes through s.statuses before cloning it", name)
+		}
+	}
+	sf := map[string]any{"statusSetClonesBeforeWriting": ssCow, "tailAssignedOnlyFreshSlices": onlyFresh, "tailNeverDestination": neverDst, "tailNeverIndexAssigned": neverIdx, "notes": notes}
 	facts["lpm_entry"] = sf
 	var sb strings.Builder
 	sb.WriteString("-- GENERATED by tools/extract from the current source (lpm_index.go: lpmEntry.upsert / delete). Do not edit.\n")
 	sb.WriteString("import SdbModel.Model.SliceCow\nnamespace Sdb.Gen\n")
 	fmt.Fprintf(&sb, "def lpmEntryFacts : SliceCow.EntryFacts := { tailAssignedOnlyFreshSlices := %v, tailNeverDestination := %v, tailNeverIndexAssigned := %v }\n", onlyFresh, neverDst, neverIdx)
+	fmt.Fprintf(&sb, "/-- reconciler.StatusSet.Set / Pending clone `s.statuses` (unconditionally, first) before writing through it -/\ndef statusSetClonesBeforeWriting : Bool := %v\n", ssCow)
 	sb.WriteString("end Sdb.Gen\n")
 	return "SliceParams.lean", sb.String()
 }
